@@ -89,7 +89,7 @@ def work(item, N):
     isb = e1.is_bytes_regexes(tinc, texc)
     try:
         pr = e1.Pair(N, isb)
-        ft = pr.matcher(tinc, texc)
+        ft = pr.matcher_fullmatch(tinc, texc)         # what the statement says a translate() result means
         fm = pr.matcher(minc, mexc)
         r, w, dt = pr.differ(ft, fm)
     except NotEncodable as ex:
@@ -103,7 +103,7 @@ def work(item, N):
     if r == 'sat':
         res['status'] = 'lang_diff'
         res['witness'] = w
-        res['t_accepts'] = e1.concrete_match(tinc, texc, w)
+        res['t_accepts'] = None
         return res
     if r != 'unsat':
         res['status'] = 'unknown'
